@@ -663,7 +663,10 @@ func runSharded(w *gen.Writer, c c21Case, shards []shardInfo, class string, det 
 	}
 }
 
-func runCase(w *gen.Writer, c c21Case, class string) {
+// schedLimit: how long after its context is done a search may take to return (generous: the machine may be loaded)
+var schedLimit = 4 * time.Second
+
+func runCase(w *gen.Writer, c c21Case, class string, withSched bool) {
 	det := gen.Detail(map[string]any{"c21": c})
 	if class == "" {
 		class = "gen"
@@ -676,6 +679,9 @@ func runCase(w *gen.Writer, c c21Case, class string) {
 		runShardLevel(w, c, i, sh, class, det)
 	}
 	runSharded(w, c, shards, class, det)
+	if withSched {
+		runSched(w, c, shards, class, det, schedLimit)
+	}
 }
 
 type replayFile struct {
@@ -714,14 +720,14 @@ func main() {
 	w := gen.NewWriter(f.Out)
 	defer w.Close()
 	if f.Replay != "" {
-		runCase(w, loadCase(f.Replay), "replay")
+		runCase(w, loadCase(f.Replay), "replay", true)
 		return
 	}
 	if f.Corpus != "" {
 		names, _ := filepath.Glob(filepath.Join(f.Corpus, "*.json"))
 		sort.Strings(names)
 		for _, n := range names {
-			runCase(w, loadCase(n), "corpus")
+			runCase(w, loadCase(n), "corpus", true)
 		}
 	}
 	r := gen.NewRand(f.Seed)
@@ -732,7 +738,7 @@ func main() {
 	}
 	start := time.Now()
 	for i := 0; i < n; i++ {
-		runCase(w, genCase(r.Fork()), "")
+		runCase(w, genCase(r.Fork()), "", i%2 == 0)
 		if time.Since(start) > budget {
 			w.Count("stopped-early-at", i)
 			break
